@@ -254,6 +254,13 @@ C17Event(o, k, b) ==
                         /\ (PGet(fp, "multiplier", 0) = 0 \/ PGet(fp, "alpha", 0) = 0 \/ PGet(fp, "queryNumber", 0) = 0)
        IN (IF ~isConst \/ Near(f, PGet(PGet(p, "params", <<>>), "value", 0), 0) THEN {} ELSE {BFail("C17", "ratio", "")})
           \cup (IF expIsZero => f = 0 THEN {} ELSE {BFail("C17", "ratio", "")})
+          (* ... and it has the sign of multiplier x alpha x queryNumber otherwise (e^x - 1 has the sign of x); a product *)
+          (* of magnitude above one unit cannot round to 0                                                       *)
+          \cup (IF PGet(p, "function", "") = "expFromZero" /\ ~expIsZero
+                   /\ LET mu == PGet(fp, "multiplier", 0) al == PGet(fp, "alpha", 0) q == PGet(fp, "queryNumber", 0)
+                           pos == (mu > 0) = ((al > 0) = (q > 0))
+                       IN (NAbs(al) >= u \div 16 /\ NAbs(mu) >= u \div 4) /\ ~(IF pos THEN f > 0 ELSE f < 0)
+                THEN {BFail("C17", "ratio-sign", "")} ELSE {})
           \cup (IF after.criteria = before.criteria /\ after.params = before.params THEN {} ELSE {BFail("C17", "criteria-or-params-changed", "")})
           \cup (IF ~coherent THEN {BFail("C17", "coverage", "")}
                 ELSE (IF \A a \in AllIds(before) : \A c \in StCritIds(before) : within(a, c) THEN {} ELSE {BFail("C17", "bound", "")})
